@@ -75,7 +75,8 @@ Record pers := { p_bn : bool;     (* some BatchNorm layer tracks running statist
 
 Record trans := { training : bool; disc : bool; hard : bool; smp : skind; sn_temp : Q;
                   sn_thetas : list tnf;                         (* SuperNetCombiner.theta_alpha: not a buffer *)
-                  ranges : option (list (string * Z) * list tnf) }.    (* weight ranges / bias scales, set by forward *)
+                  ranges : option (list (string * Z)) }.    (* MinMaxWeight.ch_min/ch_max, QuantizerBias._scale: plain attributes, uninitialised
+                       after construction, recomputed from the weights by every forward pass (of the wrapper and of the exported net) *)
 Record state := { meth : method; pe : pers; tr : trans }.
 
 (* ---------------------------------------------------------------- state_dict keys *)
@@ -181,7 +182,7 @@ Definition forward (noise : nat) (s : state) : state :=
       {| meth := MPS;
          pe := {| p_bn := p_bn p; p_net := p_net p; p_masks := p_masks p; p_layers := p_layers p; p_samplers := ss |};
          tr := {| training := training t; disc := disc t; hard := hard t; smp := smp t; sn_temp := sn_temp t;
-                  sn_thetas := sn_thetas t; ranges := Some (p_net p, map s_theta ss) |} |}
+                  sn_thetas := sn_thetas t; ranges := Some (p_net p) |} |}
   | SN =>
       with_tr s {| training := training t; disc := disc t; hard := hard t; smp := smp t; sn_temp := sn_temp t;
                    sn_thetas := map (fun q => sn_sample (smp t) (training t) (hard t) (sn_temp t) noise (s_alpha q)) (p_samplers p);
@@ -260,9 +261,11 @@ Record observation := {
   o_out : bool * list tnf;                     (* outputs: mode, coefficients used by the forward pass (PIT: binarized masks = persisted) *)
   o_cost : list tnf * list (Q * Q);            (* get_cost: coefficients / effective sizes *)
   o_summary : list tnf;                        (* summary(): SuperNetCombiner.summary re-samples; PIT/MPS read persisted tensors *)
-  o_export : option (list (string * Z) * list tnf) * list tnf }.
-     (* export(): arg-max of persisted logits + MPS ranges/scales; BatchNorm statistics written by a training-mode forward
-        depend on the coefficients that forward used *)
+  o_export : list tnf }.
+     (* export(): arg-max of the persisted logits, persisted weights; the BatchNorm statistics written by a training-mode
+        forward depend on the coefficients that forward used.  (MPS ranges / scales are recomputed by the exported
+        network's own forward pass and are therefore not part of this observation: see [lazy].) *)
+Definition lazy (s : state) := ranges (tr s).
 Definition obs (s : state) : observation :=
   let t := tr s in
   {| o_out := (training t, thetas s);
@@ -270,7 +273,7 @@ Definition obs (s : state) : observation :=
      o_summary := match meth s with
                   | SN => map (fun q => sn_sample (smp t) (training t) (hard t) (sn_temp t) 0 (s_alpha q)) (p_samplers (pe s))
                   | _ => [] end;
-     o_export := (match meth s with MPS => ranges t | _ => None end, if p_bn (pe s) && training t then thetas s else []) |}.
+     o_export := if p_bn (pe s) && training t then thetas s else [] |}.
 Definition observe (s : state) : pers * observation := (pe s, obs s).
 
 (* transient options that the constructor sets from its arguments *)
@@ -304,11 +307,7 @@ Definition obs_eqb (a b : observation) : bool * bool * bool * bool :=
   (Bool.eqb (fst (o_out a)) (fst (o_out b)) && tl_eqb (snd (o_out a)) (snd (o_out b)),
    tl_eqb (fst (o_cost a)) (fst (o_cost b)) && list_eqb (fun x y => q_eqb (fst x) (fst y) && q_eqb (snd x) (snd y)) (snd (o_cost a)) (snd (o_cost b)),
    tl_eqb (o_summary a) (o_summary b),
-   match fst (o_export a), fst (o_export b) with
-   | None, None => true
-   | Some (n1, t1), Some (n2, t2) => net_eqb n1 n2 && tl_eqb t1 t2
-   | _, _ => false
-   end && tl_eqb (snd (o_export a)) (snd (o_export b))).
+   tl_eqb (o_export a) (o_export b)).
 
 (* ---------------------------------------------------------------- run_* helpers evaluated by vlib/c17.py *)
 Definition skind_id (k : skind) : Z := match k with Sm => 0%Z | Gs => 1%Z | NoSamp => 2%Z end.
